@@ -3,6 +3,7 @@ mod c01;
 mod c02;
 mod c03;
 mod c04;
+mod c05;
 mod c06;
 mod c07;
 mod c08;
@@ -77,6 +78,7 @@ fn main() {
         "c02" => c02::run(&opts),
         "c03" => c03::run(&opts),
         "c04" => c04::run(&opts),
+        "c05" => c05::run(&opts),
         "c06" => c06::run(&opts),
         "c07" => c07::run(&opts),
         "c08" => c08::run(&opts),
